@@ -4,3 +4,17 @@
 import D42.Props.C03Sub
 import D42.Props.C08Format
 import D42.Props.ValidatorProg
+
+namespace D42
+open CP
+
+/-- every error the statement sequences AS EXTRACTED FROM THE SOURCE produce carries the path it was given and the value it
+    was given, and states a true fact about that value (`validateScalar_eq_extracted` composed with `validateScalar_here`
+    and `validateScalar_true`) -/
+theorem extracted_errors_located_and_true (env : Env) (k : ScalarS) (a : PyVal) (p : Path) :
+    ∀ e ∈ (run env (viewScalar k) a p (progOf k) []).1, e.path = p ∧ e.actual = a ∧ Fact env e := by
+  rw [← validateScalar_eq_extracted]
+  intro e he
+  exact ⟨(validateScalar_here env k a p e he).1, (validateScalar_here env k a p e he).2, validateScalar_true env k a p e he⟩
+
+end D42
